@@ -297,8 +297,8 @@ static std::string step_ras(const std::vector<std::string>& w) {
 //   of convention <ccid> (after harness/c06.cpp `iv`): op = i<hex> immediate | r<tid> fresh GP register | v<tid> fresh vector register.
 //   flags: bit1 avx, bit2 avx512, bit3 preserved frame pointer.
 //   -> ok <css> <csa> <lso> <lss> <fss> <final align> <da> <invoke arg_stack_size> | <off:size ...>
-//      the frame as the register allocator left it and every store through sp (offset >= 0) the lowering emitted between the function's
-//      own initialisation and the `call` (the harness's own stores into the local buffer are excluded)
+//      the frame as the register allocator left it and every argument / temporary store of the invoke lowering (see the rule at the
+//      collection loop); register spills and the function's own stores are not argument stores and are not listed
 static std::string step_civ(const std::vector<std::string>& w) {
   uint64_t arch_i, win, ccid, flags, lsize, lalign;
   if (w.size() != 8 || !vh::parse_u64(w[1], arch_i) || !vh::parse_u64(w[2], win) || !vh::parse_u64(w[3], ccid) || !vh::parse_hex(w[4], flags) ||
@@ -398,11 +398,15 @@ static std::string step_civ(const std::vector<std::string>& w) {
     const BaseMem& m = in->op(0).as<BaseMem>();
     if (!m.has_base_reg() || m.has_index()) { out += " ?"; continue; }
     int64_t off;
-    if (m.base_id() == x86::Gp::kIdSp) off = m.offset_lo32();
-    else if (sp_ptr.count(m.base_id())) off = sp_ptr[m.base_id()] + m.offset_lo32();
-    else continue;                                          // through the frame pointer / an unrelated pointer
     uint32_t size = in->op(0).signature().size();
     if (!size && in->op_count() > 1 && in->op(1).is_reg()) size = in->op(1).as<Reg>().size();
+    // Only the stores of the invoke lowering are judged - by what they are, not by where they happen to land: a by-reference temporary
+    // is written through a pointer the lowering took from sp (`lea`), a stack argument is written to [sp + off] with off inside the
+    // invoke's own argument area (arg_stack_size incl. temporaries). Anything else through sp between the markers is a register spill
+    // or a store of the function itself; those live in the local area by design.
+    if (sp_ptr.count(m.base_id())) off = sp_ptr[m.base_id()] + m.offset_lo32();
+    else if (m.base_id() == x86::Gp::kIdSp && m.offset_lo32() >= 0 && uint32_t(m.offset_lo32()) < inv->detail().arg_stack_size()) off = m.offset_lo32();
+    else continue;
     snprintf(buf, sizeof(buf), " %lld:%u", (long long)off, size);
     out += buf;
   }
